@@ -27,6 +27,6 @@ CONSTANTS
   Slack = 0
   Bound = 0
   ZonedPanics = FALSE
-INVARIANTS TypeOK MechNat FwdAuthentic FwdOnce ReplyAuthentic ReplyOnce SaltsFresh CreateOnlyValid CreateOnce SrcPrivate OwnerOnly SrcStable FwdComplete ReplyComplete OnePerClient NoCrash HandleTotal PktCSound PktTSound PktCPerDatagram PktTPerReply PktTSize MetricsLanguage RemoveOnce ReclaimedInTime NoEarlyRemoval AllReclaimed ShutdownReclaimed
+INVARIANTS TypeOK MechNat FwdAuthentic FwdToNamed FwdOnce ReplyAuthentic ReplyOnce SaltsFresh CreateOnlyValid CreateOnce SrcPrivate OwnerOnly SrcStable FwdComplete ReplyComplete OnePerClient NoCrash HandleTotal PktCSound PktTSound PktCPerDatagram PktTPerReply PktTSize MetricsLanguage RemoveOnce ReclaimedInTime NoEarlyRemoval AllReclaimed ShutdownReclaimed
 VIEW View
 CHECK_DEADLOCK FALSE
